@@ -569,4 +569,106 @@ Proof.
     intros E. rewrite E in He. apply He. reflexivity.
 Qed.
 
+(* ---- unsettled resting states ---- *)
+Lemma settle_bnd_cases s ph : boundary_phase (settle s) = Some ph ->
+  (settle s = s /\ boundary_phase s = Some ph) \/
+  (is_final s = false /\ forall d, drive1 norm maxc s d = (Continue d (settle s), [])).
+Proof.
+  destruct s as [| p q | v p q | i p q | i p q | i v p q | rq p q | rq | e]; cbn [settle]; intros H;
+    try (left; split; [reflexivity|exact H]);
+    (destruct p as [|p]; [destruct q as [|q]|]); cbn [boundary_phase] in H; try discriminate;
+    try (left; split; [reflexivity|exact H]); right; (split; [reflexivity|]); intros d; cbn [drive1].
+  - unfold skip_drive. destruct (N.ltb_spec (len d) 0); [lia|].
+    destruct (N.ltb_spec (len d) (0 + 0)); [lia|]. reflexivity.
+  - unfold values_drive. change (0 <? 0) with false. cbn iota.
+    destruct (N.ltb_spec (len d) 0); [lia|]. reflexivity.
+  - unfold skip_drive. destruct (N.ltb_spec (len d) 0); [lia|].
+    destruct (N.ltb_spec (len d) (0 + 0)); [lia|]. reflexivity.
+  - unfold values_drive. change (0 <? 0) with false. cbn iota.
+    destruct (N.ltb_spec (len d) 0); [lia|]. reflexivity.
+Qed.
+
+Lemma settle_state_ok s : state_ok s -> state_ok (settle s).
+Proof.
+  destruct s as [| p q | v p q | i p q | i p q | i v p q | rq p q | rq | e]; cbn [settle]; intros H; try exact H;
+    (destruct p as [|p]; [destruct q as [|q]|]); try exact H; try exact I;
+    cbn [state_ok] in *; tauto.
+Qed.
+
+Lemma settle_sbuf s : sbuf (settle s) = sbuf s.
+Proof.
+  destruct s as [| p q | v p q | i p q | i p q | i v p q | rq p q | rq | e]; cbn [settle]; try reflexivity;
+    (destruct p as [|p]; [destruct q as [|q]|]); reflexivity.
+Qed.
+
+Lemma settle_idem s : settle (settle s) = settle s.
+Proof.
+  destruct s as [| p q | v p q | i p q | i p q | i v p q | rq p q | rq | e]; cbn [settle]; try reflexivity;
+    (destruct p as [|p]; [destruct q as [|q]|]); reflexivity.
+Qed.
+
+Lemma state_small_sbuf s : state_small s <-> sbuf s < SIZE_LIMIT.
+Proof.
+  destruct s; cbn [state_small sbuf]; try tauto; unfold SIZE_LIMIT; split; intros; try exact I; lia.
+Qed.
+
+Lemma drive_fuel_enc r : exists f, drive_fuel (enc_rcd r) = S (S (S f)).
+Proof. unfold drive_fuel. exists (2 * length (enc_rcd r) + 1)%nat. lia. Qed.
+
+Lemma rec_step_bnd f s r ph : state_ok s -> state_small s -> boundary_phase s = Some ph -> rcd_ok r ->
+  match rec_step norm s r with
+  | RNext s' => exists s'', drive norm maxc (S (S f)) s (enc_rcd r) [] = DOk [] s'' (reply_for maxc ph r) /\
+                 settle s'' = s' /\ state_ok s'' /\ sbuf s'' <= sbuf s + len (rbody r) /\
+                 (~ gv_empty r -> s'' = s')
+  | RFatal e => exists rest, drive norm maxc (S (S f)) s (enc_rcd r) [] = DOk rest (Fatal e) []
+  end.
+Proof.
+  intros Hok Hsm Hb Hr.
+  destruct s as [| p q | v p q | i p q | i p q | i v p q | rq p q | rq | e]; cbn [boundary_phase] in Hb;
+    try discriminate.
+  - injection Hb as <-. pose proof (rec_step_header f r Hr) as H.
+    destruct (rec_step norm Header r) as [s'|e]; [|exact H].
+    destruct H as (s'' & H1 & H2 & H3 & H4 & H5). exists s''. repeat split; try assumption. lia.
+  - destruct p as [|p]; [destruct q as [|q]|]; try discriminate. injection Hb as <-.
+    cbn [state_ok state_small sbuf] in *. apply (rec_step_params f i r); tauto.
+Qed.
+
+(* the true form of rec_step_stmt: the resting state is right up to settling, and exactly right
+   unless the record is an empty, unpadded GetValues *)
+Lemma rec_step_settle s r ph :
+  state_ok s -> state_small s -> boundary_phase (settle s) = Some ph -> rcd_ok r ->
+  match rec_step norm (settle s) r with
+  | RNext s' => exists s'', drive_all norm maxc s (enc_rcd r) = DOk [] s'' (reply_for maxc ph r) /\
+                 settle s'' = s' /\ state_ok s'' /\ sbuf s'' <= sbuf s + len (rbody r) /\
+                 (~ gv_empty r -> s'' = s')
+  | RFatal e => exists rest, drive_all norm maxc s (enc_rcd r) = DOk rest (Fatal e) []
+  end.
+Proof.
+  intros Hok Hsm Hb Hr. unfold drive_all. destruct (drive_fuel_enc r) as [f ->].
+  destruct (settle_bnd_cases s ph Hb) as [[E Hb']|[Hf Hd]].
+  - rewrite E. apply (rec_step_bnd (S f) s r ph); assumption.
+  - assert (Hne : enc_rcd r <> []) by (apply len_pos_ne; rewrite len_enc_rcd; lia).
+    rewrite (drive_cont (S (S f)) s _ [] _ _ [] Hf (Hd _)). rewrite drive_tail_ne by exact Hne.
+    cbn [app]. rewrite <- (settle_sbuf s).
+    apply (rec_step_bnd f (settle s) r ph); try assumption.
+    + apply settle_state_ok; exact Hok.
+    + apply state_small_sbuf. rewrite settle_sbuf. apply state_small_sbuf. exact Hsm.
+Qed.
+
+Lemma rec_step_ok_but_gv_empty s r ph :
+  state_ok s -> state_small s -> boundary_phase s = Some ph -> rcd_ok r -> ~ gv_empty r ->
+  match rec_step norm s r with
+  | RNext s' => drive_all norm maxc s (enc_rcd r) = DOk [] s' (reply_for maxc ph r) /\ state_ok s'
+  | RFatal e => exists rest, drive_all norm maxc s (enc_rcd r) = DOk rest (Fatal e) []
+  end.
+Proof.
+  intros Hok Hsm Hb Hr Hg.
+  assert (E : settle s = s).
+  { destruct s as [| p q | v p q | i p q | i p q | i v p q | rq p q | rq | e]; cbn [boundary_phase] in Hb;
+      try discriminate; reflexivity. }
+  pose proof (rec_step_settle s r ph Hok Hsm) as H. rewrite E in H. specialize (H Hb Hr).
+  destruct (rec_step norm s r) as [s'|e]; [|exact H].
+  destruct H as (s'' & H1 & H2 & H3 & H4 & H5). rewrite (H5 Hg) in *. split; assumption.
+Qed.
+
 End Records.
